@@ -127,10 +127,13 @@ pub fn inverse_rle(
             }
 
             let (zig_x, zig_y) = DEZIGZAG_MAPPING[zigzag_index];
-            let dequantized_level = quant as i16 * ((2 * tcoef.level.abs()) + 1);
+            // Computed in `i32`: `quant * (2 * |level| + 1)` exceeds `i16` for the
+            // 11-bit levels of Sorenson Spark at high quantizers.
+            let level = tcoef.level as i32;
+            let dequantized_level = quant as i32 * ((2 * level.abs()) + 1);
             let parity = if quant % 2 == 1 { 0 } else { -1 };
 
-            let value = (tcoef.level.signum() * (dequantized_level + parity)).clamp(-2048, 2047);
+            let value = (level.signum() * (dequantized_level + parity)).clamp(-2048, 2047) as i16;
             let val = value.into();
             block_data[zig_y as usize][zig_x as usize] = val;
             zigzag_index += 1;
